@@ -4,11 +4,16 @@
    implementation's own output fails a property oracle (codes >= 10). *)
 From Coq Require Import ZArith List Bool NArith.
 From Coq Require Import Init.Byte.
-From FFS Require Import Base.Res Base.Bytes Base.Lit Base.Keccak Crypto.Ecdsa Crypto.Secp256k1Exec Secp.Model.
+From FFS Require Import Base.Res Base.Bytes Base.Lit Base.Keccak Crypto.Ecdsa Crypto.Secp256k1Exec Secp.Model Secp.Curve.
 Import ListNotations.
 Local Open Scope Z_scope.
 
-Definition X := secp256k1_ops.
+(* The instance the model is evaluated on: the executable curve arithmetic over the carrier of ON-CURVE
+   points (Secp/Curve.v) -- the object [Ecdsa.laws] is (trusted to be) true of.  Until the referee report
+   (issue I3) this was Secp256k1Exec.secp256k1_ops, whose carrier contains off-curve pairs, so that
+   [laws] is false of it.  The independent oracle of codes 12/13 (exec_recover / exec_pub / point_eqb)
+   stays on the raw pairs. *)
+Definition X := curve_ops.
 
 (* the RFC 6979 nonce is an oracle: the harness obtains it from the library (decred NonceRFC6979,
    iteration 0) and the model is run with a stream that yields it once *)
